@@ -154,7 +154,7 @@ type xl struct {
 
 // identifiers the generated text uses itself; a Go variable of such a name gets a trailing underscore
 var xReserved = strings.Fields(`ctl Next Return Panic bindc go_call wrapU wrapS go_len go_nth go_in_range go_slice
- go_slice_ok go_bytes_eqb go_be_u16 go_be_u32 go_be_u64 go_emit_u8 go_emit_u16 go_emit_u32 go_emit_u64 go_emit_bytes go_range go_count go_map_get go_map_set go_make go_iter rd fuel inl inr go_atomic_cas32 go_atomic_add32 go_search go_search_ok Some None go_f32_to_f64 go_bytes_ltb go_sort_by go_count_down a__ b__ go_loop go_copy go_deliver go_smap_put go_arm
+ go_slice_ok go_bytes_eqb go_be_u16 go_be_u32 go_be_u64 go_emit_u8 go_emit_u16 go_emit_u32 go_emit_u64 go_emit_bytes go_range go_count go_map_get go_map_set go_make go_iter rd fuel inl inr go_atomic_cas32 go_atomic_add32 go_search go_search_ok Some None go_f32_to_f64 go_bytes_ltb go_sort_by go_count_down a__ b__ go_loop go_copy go_deliver go_smap_put go_arm go_tag
  andb orb negb implb true false tt nil cons list unit bool Z N nat fst snd pair Bool eqb
  fun let in if then else match with end as return forall exists fix cofix Type Prop Set struct where at using for IF
  Definition Fixpoint Record Lemma Theorem out st`)
@@ -1700,6 +1700,8 @@ func (x *xl) stmt(s ast.Stmt, rest func() string, d int) string {
 		term, _, bind := x.state(s, vs)
 		return xGuarded(g, "bindc (if "+c+xInd(d+1)+"then "+x.block(thn, "Next "+term, d+2)+
 			xInd(d+1)+"else "+x.block(els, "Next "+term, d+2)+")"+xInd(d)+"("+bind+xInd(d)+rest()+")")
+	case *ast.SelectStmt:
+		return x.selectStmt(s, rest, d)
 	case *ast.SwitchStmt:
 		return x.switchStmt(s, rest, d)
 	case *ast.RangeStmt:
@@ -1709,6 +1711,60 @@ func (x *xl) stmt(s ast.Stmt, rest func() string, d int) string {
 	}
 	x.fail(s, "statement %T is outside the subset", s)
 	return ""
+}
+
+// selectStmt (writer mode): every communication the select offers is an emission - a send `ch <- v` is the primitive
+// declared under the name "chan<-", a receive `<-f(args)` the primitive declared for f - and which clause runs is the
+// environment's choice: the oracle declared under the name "select" (index of the clause; any other value: the last one).
+func (x *xl) selectStmt(s *ast.SelectStmt, rest func() string, d int) string {
+	sel, ok := x.unit.Oracles["select"]
+	if !ok || x.unit.Writer == nil {
+		x.fail(s, "select is in the subset only in writer mode with the choice declared as the oracle \"select\"")
+	}
+	var g xGuards
+	var emits []string
+	var bodies [][]ast.Stmt
+	var all []ast.Stmt
+	for _, c := range s.Body.List {
+		cc := c.(*ast.CommClause)
+		switch comm := cc.Comm.(type) {
+		case nil: // default
+		case *ast.SendStmt:
+			p, found := x.unit.Writer.Prims["chan<-"]
+			if !found {
+				x.fail(comm, "send in a select: no primitive \"chan<-\" declared")
+			}
+			emits = append(emits, "("+p.Coq+")")
+		case *ast.ExprStmt:
+			u, isU := comm.X.(*ast.UnaryExpr)
+			if !isU || u.Op != token.ARROW {
+				x.fail(comm, "communication %s in a select is outside the subset", x.src(comm))
+			}
+			_, prim, isPrim := x.writerCall(u.X, &g)
+			if !isPrim || prim == "" {
+				x.fail(comm, "receive from %s: not a declared primitive", x.src(u.X))
+			}
+			emits = append(emits, prim)
+		default:
+			x.fail(cc, "communication %s in a select is outside the subset", x.src(cc.Comm))
+		}
+		bodies = append(bodies, cc.Body)
+		all = append(all, cc.Body...)
+	}
+	if len(bodies) == 0 {
+		x.fail(s, "empty select")
+	}
+	vs := x.assigned(all)
+	term, _, bind := x.state(s, vs)
+	t := x.block(bodies[len(bodies)-1], "Next "+term, d+2)
+	for i := len(bodies) - 2; i >= 0; i-- {
+		t = fmt.Sprintf("if (%s =? %d)%sthen %s%selse %s", sel.Name, i, xInd(d+1), x.block(bodies[i], "Next "+term, d+2), xInd(d+1), t)
+	}
+	em := ""
+	if len(emits) > 0 {
+		em = "let out := out ++ " + strings.Join(emits, " ++ ") + " in" + xInd(d)
+	}
+	return xGuarded(g, em+"bindc ("+t+")"+xInd(d)+"("+bind+xInd(d)+rest()+")")
 }
 
 func (x *xl) assign(s *ast.AssignStmt, rest func() string, d int) string {
